@@ -931,6 +931,133 @@ static void void_family(vr::Ctx& ctx)
     ctx.sample("{\"void_source_chains\":" + std::to_string(n) + "}");
 }
 
+// ---- ownership family: fire-and-forget chains ---------------------------------------------------------------------------
+// src.then(f, Throw).then(g, h) where the program keeps or drops each of the three promise objects (source, first derived,
+// second derived) right after building the chain, discards or keeps the source's resolver pair after using it, and settles
+// the source before or after the chain is built; f returns a value, nothing, or a fulfilled / rejected / still pending
+// promise (the pending one is settled last, fulfilled or rejected, after everything else has been dropped). Which objects
+// the caller still holds must not change what reaches g / h: exactly one of them, once, with the right outcome.
+template <bool VoidSrc>
+static void lifetime_family(vr::Ctx& ctx)
+{
+    using Src = typename std::conditional<VoidSrc, Async::Promise<void>, Async::Promise<int>>::type;
+    static const char* kF[] = { "returns-value", "returns-nothing", "returns-fulfilled-promise", "returns-rejected-promise", "returns-pending-promise" };
+    uint64_t n = 0;
+    for (int f = 0; f < 5; ++f)
+        for (int innerRej = 0; innerRej < (f == 4 ? 2 : 1); ++innerRej)
+            for (int srcRej = 0; srcRej < 2; ++srcRej)
+                for (int presettled = 0; presettled < 2; ++presettled)
+                    for (int keep = 0; keep < 8; ++keep)
+                        for (int dropResolver = 0; dropResolver < 2; ++dropResolver)
+                        {
+                            std::string what = std::string(VoidSrc ? "void" : "int") + " source " + (presettled ? "settled before" : "settled after") + " the chain is built, " + (srcRej ? "rejected" : "fulfilled") + "; f " + kF[f] + (f == 4 ? (innerRej ? " (rejected later)" : " (fulfilled later)") : "") + "; caller keeps {" + ((keep & 1) ? "source " : "") + ((keep & 2) ? "derived1 " : "") + ((keep & 4) ? "derived2 " : "") + "}; resolver " + (dropResolver ? "discarded after use" : "kept");
+                            ctx.note("lifetime " + what);
+                            int fRuns = 0, gRuns = 0, hRuns = 0, gVal = -1, hExc = -1;
+                            std::string escaped;
+                            auto excp = [](int id) { return std::make_exception_ptr(std::runtime_error(std::to_string(id))); };
+                            try
+                            {
+                                std::optional<Async::Resolver> res, ires;
+                                std::optional<Async::Rejection> rej, irej;
+                                std::optional<Src> s;
+                                std::optional<Async::Promise<int>> d1;
+                                auto settleSrc = [&] {
+                                    if (srcRej)
+                                        (*rej)(excp(1));
+                                    else
+                                    {
+                                        if constexpr (VoidSrc)
+                                            (*res)();
+                                        else
+                                            (*res)(5);
+                                    }
+                                    if (dropResolver)
+                                    {
+                                        res.reset();
+                                        rej.reset();
+                                    }
+                                };
+                                s.emplace([&](Async::Resolver& r, Async::Rejection& j) { res.emplace(std::move(r)); rej.emplace(std::move(j)); });
+                                if (presettled)
+                                    settleSrc();
+                                auto inner = [&]() {
+                                    return Async::Promise<int>([&](Async::Resolver& r, Async::Rejection& j) { ires.emplace(std::move(r)); irej.emplace(std::move(j)); });
+                                };
+                                auto g = [&](int x) { ++gRuns; gVal = x; };
+                                auto h = [&](std::exception_ptr e) { ++hRuns; hExc = exc_id(e); };
+                                bool hasD1 = f != 1;
+                                if constexpr (VoidSrc)
+                                {
+                                    switch (f)
+                                    {
+                                    case 0: d1.emplace(s->then([&]() { ++fRuns; return 7; }, Async::Throw)); break;
+                                    case 1: s->then([&]() { ++fRuns; }, Async::Throw); break;
+                                    case 2: d1.emplace(s->then([&]() { ++fRuns; return Async::Promise<int>::resolved(9); }, Async::Throw)); break;
+                                    case 3: d1.emplace(s->then([&]() { ++fRuns; return Async::Promise<int>::rejected(std::runtime_error("2")); }, Async::Throw)); break;
+                                    default: d1.emplace(s->then([&]() { ++fRuns; return inner(); }, Async::Throw));
+                                    }
+                                }
+                                else
+                                {
+                                    switch (f)
+                                    {
+                                    case 0: d1.emplace(s->then([&](int) { ++fRuns; return 7; }, Async::Throw)); break;
+                                    case 1: s->then([&](int) { ++fRuns; }, Async::Throw); break;
+                                    case 2: d1.emplace(s->then([&](int) { ++fRuns; return Async::Promise<int>::resolved(9); }, Async::Throw)); break;
+                                    case 3: d1.emplace(s->then([&](int) { ++fRuns; return Async::Promise<int>::rejected(std::runtime_error("2")); }, Async::Throw)); break;
+                                    default: d1.emplace(s->then([&](int) { ++fRuns; return inner(); }, Async::Throw));
+                                    }
+                                }
+                                std::optional<Async::Promise<void>> d2;
+                                if (hasD1)
+                                    d2.emplace(d1->then(g, h));
+                                if (!(keep & 1))
+                                    s.reset();
+                                if (!(keep & 2))
+                                    d1.reset();
+                                if (!(keep & 4))
+                                    d2.reset();
+                                if (!presettled)
+                                    settleSrc();
+                                if (f == 4 && ires)
+                                {
+                                    if (innerRej)
+                                        (*irej)(excp(3));
+                                    else
+                                        (*ires)(11);
+                                    ires.reset();
+                                    irej.reset();
+                                }
+                            }
+                            catch (const std::exception& e)
+                            {
+                                escaped = e.what();
+                            }
+                            ++n;
+                            ++gPrograms;
+                            static const int kVal[] = { 7, -1, 9, -1, 11 };
+                            bool srcOk   = !srcRej;
+                            bool ok      = escaped.empty() && fRuns == (srcOk ? 1 : 0);
+                            if (f != 1)
+                            {
+                                bool expectOk = srcOk && f != 3 && !(f == 4 && innerRej);
+                                int expectExc = !srcOk ? 1 : f == 3 ? 2 : 3;
+                                ok            = ok && (expectOk ? (gRuns == 1 && hRuns == 0 && gVal == kVal[f]) : (gRuns == 0 && hRuns == 1 && hExc == expectExc));
+                            }
+                            std::string obs = "f_runs=" + std::to_string(fRuns) + " g_runs=" + std::to_string(gRuns) + "(" + std::to_string(gVal) + ") h_runs=" + std::to_string(hRuns) + "(" + std::to_string(hExc) + ")";
+                            if (!ok)
+                                ctx.violation(!escaped.empty() ? "c11:lifetime:exception-escapes" : gRuns + hRuns > 1 || fRuns > 1 ? "c11:lifetime:continuation-ran-twice" : gRuns + hRuns == 0 && f != 1 ? "c11:lifetime:outcome-never-delivered:f-" + std::string(kF[f]) : "c11:lifetime:outcome-differs:f-" + std::string(kF[f]),
+                                              "{\"program\":" + vr::jstr(what) + ",\"observed\":" + vr::jstr(obs) + (escaped.empty() ? "" : ",\"exception\":" + vr::jstr(escaped)) + "}");
+                            ctx.outcome(std::string("lifetime: f ") + kF[f] + " -> " + (gRuns ? "g" : hRuns ? "h" : "-"));
+                            ctx.nontrivial(vr::hash_str(what));
+                            ctx.poll_reports();
+                        }
+    ctx.count("executions", n);
+    ctx.count("evaluations", n);
+    ctx.count("transitions", n * 5);
+    ctx.sample("{\"lifetime_chains_" + std::string(VoidSrc ? "void" : "int") + "_source\":" + std::to_string(n) + "}");
+}
+
 int main(int argc, char** argv)
 {
     vr::Options opt = vr::parse_args(argc, argv);
@@ -956,10 +1083,18 @@ int main(int argc, char** argv)
         printf("%zu prefixes of length %d\n", gPrefixes.size(), pre);
         return 0;
     }
-    return vr::run(opt, gPrefixes.size() + gSweeps.size() + 1, [](uint64_t idx, vr::Ctx& ctx) {
+    return vr::run(opt, gPrefixes.size() + gSweeps.size() + 3, [](uint64_t idx, vr::Ctx& ctx) {
         if (idx == gPrefixes.size() + gSweeps.size())
         {
             void_family(ctx);
+            return;
+        }
+        if (idx > gPrefixes.size() + gSweeps.size())
+        {
+            if (idx == gPrefixes.size() + gSweeps.size() + 1)
+                lifetime_family<false>(ctx);
+            else
+                lifetime_family<true>(ctx);
             return;
         }
         if (idx >= gPrefixes.size())
